@@ -403,6 +403,15 @@ def run_property(pid, tier, seed, root):
             viol_lines.append((f'VIOLATION property={pid} replay={rp}', oid))
             n_viol = len(viol_lines)
 
+    # ---- thorough tier: the specification itself against the reference implementation (CPython)
+    spec_sanity = None
+    if tier == 'thorough' and cfg.get('spec_vs_python'):
+        pr = subprocess.run([sys.executable, os.path.join(root, 'tools', 'spec_vs_python.py'), '5000'], capture_output=True, text=True,
+                            env=dict(os.environ, VERIF_SEED=str(seed)))
+        spec_sanity = pr.stdout.strip().split('\n')[-1] if pr.stdout.strip() else pr.stderr[-300:]
+        if pr.returncode != 0:
+            unsound.append('the executable transcription of the specification disagrees with CPython: ' + pr.stdout[-500:])
+
     # ---- stand-in when the deductive route is undecided (unsupported construct, lost anchor, timeout):
     # search the real code for a concrete failing input. A hit is a violation (it replays on the real
     # code); a miss leaves the run undecided (exit 2). Never counted as proved.
@@ -444,7 +453,7 @@ def run_property(pid, tier, seed, root):
             'not_covered': cfg.get('not_covered', []),
             'samples': samples,
             'failed_obligations': [oid for _, oid in viol_lines],
-            'undecided': undecided, 'unsound': unsound, 'standin_search': standin, 'sensitivity_self_test': sens, 'exploration_sweep': ({k: v for k, v in sweep.items() if k != 'counterexample'} if sweep else None),
+            'undecided': undecided, 'unsound': unsound, 'standin_search': standin, 'sensitivity_self_test': sens, 'spec_vs_cpython': spec_sanity, 'exploration_sweep': ({k: v for k, v in sweep.items() if k != 'counterexample'} if sweep else None),
             'explanation': ('obligations = proof obligations (AIR assert terms) generated by Verus for the functions of each unit '
                             'assembled from /repo on this run, plus the property checks of complete (loop-free, full-domain) Kani '
                             'harnesses on the real crates; bounded Kani harnesses are listed under bounded_checks and are not counted'),
